@@ -335,9 +335,12 @@ impl Frame {
             );
             match lf_global {
                 Ok(lf_global) => {
-                    self.all_group_offsets
-                        .lf_group
-                        .store(bitstream.num_read_bits(), Ordering::Relaxed);
+                    // The end of a partially decoded LfGlobal is not where LfGroup starts.
+                    if !lf_global.gmodular.is_partial() {
+                        self.all_group_offsets
+                            .lf_group
+                            .store(bitstream.num_read_bits(), Ordering::Relaxed);
+                    }
                     Ok(lf_global)
                 }
                 Err(e) if !loaded && e.unexpected_eof() => Err(e),
@@ -391,6 +394,10 @@ impl Frame {
                 }
             }
             let offset = self.all_group_offsets.lf_group.load(Ordering::Relaxed);
+            if offset == 0 {
+                // LfGlobal is not complete yet
+                return None;
+            }
             bitstream.skip_bits(offset).unwrap();
 
             let result = LfGroup::parse(
@@ -409,9 +416,12 @@ impl Frame {
 
             match result {
                 Ok(result) => {
-                    self.all_group_offsets
-                        .hf_global
-                        .store(bitstream.num_read_bits(), Ordering::Relaxed);
+                    // The end of a partially decoded LfGroup is not where HfGlobal starts.
+                    if !result.partial {
+                        self.all_group_offsets
+                            .hf_global
+                            .store(bitstream.num_read_bits(), Ordering::Relaxed);
+                    }
                     Some(Ok(result))
                 }
                 Err(e) if !loaded && e.unexpected_eof() => None,
@@ -505,6 +515,10 @@ impl Frame {
                 }
             }
             let offset = self.all_group_offsets.hf_global.load(Ordering::Relaxed);
+            if offset == 0 {
+                // LfGroup is not complete yet
+                return None;
+            }
 
             if self.header.encoding == header::Encoding::Modular {
                 self.all_group_offsets
